@@ -5,6 +5,8 @@
 #include "spqlios/arithmetic/vec_znx_arithmetic.h"
 #include "spqlios/coeffs/coeffs_arithmetic.h"
 #include "spqlios/cplx/cplx_fft.h"
+#include "spqlios/cplx/cplx_fft_internal.h"
+#include "spqlios/reim4/reim4_arithmetic.h"
 #include "spqlios/q120/q120_arithmetic.h"
 #include "spqlios/q120/q120_ntt.h"
 #include "spqlios/reim/reim_fft.h"
@@ -100,6 +102,13 @@ const OpInfo op_info[OP_NOPS] = {
     {"znx_negate_i64_avx", 2, "oi", L1, -1, OP_NONE, false},
     {"rnx_divide_by_m_ref", 2, "oi", L1, -1, OP_NONE, false},
     {"rnx_divide_by_m_avx", 2, "oi", L1, -1, OP_NONE, false},
+    {"reim4_vec_mat1col_product_ref", 3, "oii", L1, -1, OP_NONE, false},
+    {"reim4_vec_mat1col_product_avx2", 3, "oii", L1, -1, OP_NONE, false},
+    {"reim4_vec_mat2cols_product_ref", 3, "oii", L1, -1, OP_NONE, false},
+    {"reim4_vec_mat2cols_product_avx2", 3, "oii", L1, -1, OP_NONE, false},
+    {"cplx_fftvec_addmul_ref", 3, "xii", L1, TB_CPLX_ADDMUL, OP_NONE, false},
+    {"cplx_fftvec_addmul_sse", 3, "xii", L1, TB_CPLX_ADDMUL, OP_NONE, false},
+    {"cplx_fftvec_addmul_avx512", 3, "xii", L1, TB_CPLX_ADDMUL, OP_NONE, false},
     // simple twins
     {"reim_fft_simple", 1, "x", S2, -1, OP_REIM_FFT, false},
     {"reim_ifft_simple", 1, "x", S2, -1, OP_REIM_IFFT, false},
@@ -345,6 +354,24 @@ void op_invoke(const Program& P, const Call& c, const std::vector<void*>& mods, 
     case OP_ZNX_NEG_REF: znx_negate_i64_ref(c.p[0], (int64_t*)ptr[0], Z(1)); break;
     case OP_ZNX_NEG_AVX: znx_negate_i64_avx(c.p[0], (int64_t*)ptr[0], Z(1)); break;
     case OP_RNX_DIV_REF: { double m; memcpy(&m, &c.p[1], 8); rnx_divide_by_m_ref(c.p[0], m, (double*)ptr[0], (const double*)ptr[1]); break; }
+    case OP_R4_1COL_REF: reim4_vec_mat1col_product_ref(c.p[0], D(0), D(1), D(2)); break;
+    case OP_R4_1COL_AVX2: reim4_vec_mat1col_product_avx2(c.p[0], D(0), D(1), D(2)); break;
+    case OP_R4_2COLS_REF: reim4_vec_mat2cols_product_ref(c.p[0], D(0), D(1), D(2)); break;
+    case OP_R4_2COLS_AVX2: reim4_vec_mat2cols_product_avx2(c.p[0], D(0), D(1), D(2)); break;
+    case OP_CPLX_ADDMUL_KREF: cplx_fftvec_addmul_ref((const CPLX_FFTVEC_ADDMUL_PRECOMP*)tb, ptr[0], ptr[1], ptr[2]); break;
+    case OP_CPLX_ADDMUL_KSSE:
+      // (the kernel uses FMA instructions; on a host without them the portable kernel stands in, nothing is compared then)
+      if (__builtin_cpu_supports("fma"))
+        cplx_fftvec_addmul_sse((const CPLX_FFTVEC_ADDMUL_PRECOMP*)tb, ptr[0], ptr[1], ptr[2]);
+      else
+        cplx_fftvec_addmul_ref((const CPLX_FFTVEC_ADDMUL_PRECOMP*)tb, ptr[0], ptr[1], ptr[2]);
+      break;
+    case OP_CPLX_ADDMUL_KAVX512:
+      if (__builtin_cpu_supports("avx512f"))
+        cplx_fftvec_addmul_avx512((const CPLX_FFTVEC_ADDMUL_PRECOMP*)tb, ptr[0], ptr[1], ptr[2]);
+      else
+        cplx_fftvec_addmul_ref((const CPLX_FFTVEC_ADDMUL_PRECOMP*)tb, ptr[0], ptr[1], ptr[2]);
+      break;
     case OP_RNX_DIV_AVX: { double m; memcpy(&m, &c.p[1], 8); rnx_divide_by_m_avx(c.p[0], m, (double*)ptr[0], (const double*)ptr[1]); break; }
 
     case OP_REIM_FFT_SIMPLE: reim_fft_simple(sm, ptr[0]); break;
